@@ -66,6 +66,11 @@ def resolve_locals(fn, expr, pure_only=True):
             stores[n.id] = stores.get(n.id, 0) + 1
         if isinstance(n, ast.Assign) and len(n.targets) == 1 and isinstance(n.targets[0], ast.Name) and (normal.is_pure(n.value) or not pure_only):
             single.setdefault(n.targets[0].id, []).append(n.value)
+        if isinstance(n, ast.Assign) and len(n.targets) == 1 and isinstance(n.targets[0], ast.Tuple) and isinstance(n.value, ast.Tuple) and \
+                len(n.targets[0].elts) == len(n.value.elts):
+            for t_, v_ in zip(n.targets[0].elts, n.value.elts):
+                if isinstance(t_, ast.Name) and (normal.is_pure(v_) or not pure_only):
+                    single.setdefault(t_.id, []).append(v_)
     mapping = {k: v[0] for k, v in single.items() if len(v) == 1 and stores.get(k) == 1}
     cur = expr
     for _ in range(6):
